@@ -12,7 +12,7 @@ LEVEL = "exploration"
 RULE = (
     "case = block of runs; a run = (convergence precision 0-12 or None, batch size 1-3, scripted loss sequence through a model "
     "with N=1, D=1, Minkowski p=1 and zero real data so that loss == |scripted value| exactly, first converging batch at "
-    "position 0..n-1 or never; a fifth of the runs with a signed user loss and negative values, 15% on a three-point grid, the "
+    "position 0..n-1 or never; a fifth of the runs with a signed user loss and negative values, 15% on a three-point grid, 30% with a history-reading third sampler (CORS / BestBatch / ParticleSwarm / XGBoost / RSequence) in the line-up, the "
     "precision given as int, numpy.int64 or numpy.int32; verbose on/off, saving folder or not, 1-3 successive calibrate(n) calls). Oracle: the number of "
     "batches run by each call equals the count up to and including the first batch whose running minimum rounds to zero at p "
     "decimals (else n); the triggering batch is in the history and in the return value; a verbose twin runs the same batches; "
@@ -20,7 +20,7 @@ RULE = (
     "requested batches; distinct by (sequence class, p, verbose, folder, calls)."
 )
 ASSUMPTIONS = ["scripted values are kept a factor 1.02 away from the 0.5*10^-p rounding boundary; exact boundary values are not generated"]
-REQUIRED_COUNTERS = {"runs_with_signed_loss": 40, "runs_on_a_three_point_grid": 30, "numpy_integer_precision": 30, "continued_after_restore": 40, "runs": 200, "converged_inside": 60, "never_converged": 30, "no_precision": 10, "verbose_twins": 60, "folder_restores": 40,
+REQUIRED_COUNTERS = {"runs_with_a_history_reading_sampler": 60, "runs_with_signed_loss": 40, "runs_on_a_three_point_grid": 30, "numpy_integer_precision": 30, "continued_after_restore": 40, "runs": 200, "converged_inside": 60, "never_converged": 30, "no_precision": 10, "verbose_twins": 60, "folder_restores": 40,
                      "later_calls_after_convergence": 20}
 SHARDS = {"quick": 8, "thorough": 16}
 
@@ -79,11 +79,19 @@ def one_run(rng, ctx, out):
         for k in range(total):
             if rng.random() < 0.25 and (at is None or k != at):
                 vals[k][int(rng.integers(bs))] = -float(unit * rng.uniform(0.52, 50.0))
+    third = None
+    if rng.random() < 0.3 and not tiny_grid:
+        from vlib import gen as G
+
+        third = G.gen_sampler_desc(rng, str(rng.choice(["CORS", "BestBatch", "ParticleSwarm", "XGBoost", "RSequence"])), batch_size=bs)
+        if "max_dedup" in third:
+            third["max_dedup"] = 0
+        c["runs_with_a_history_reading_sampler"] = c.get("runs_with_a_history_reading_sampler", 0) + 1
     exp = expected_batches(vals, p, calls)
     use_folder = rng.random() < 0.5
     seed = int(rng.integers(2**31))
     wit = {"precision": p, "precision_type": ptype if p is not None else None, "batch_size": bs, "calls": calls, "scripted_losses": vals, "expected_batches_per_call": exp,
-           "folder": use_folder, "signed_loss": signed, "tiny_grid": tiny_grid}
+           "folder": use_folder, "signed_loss": signed, "tiny_grid": tiny_grid, "third_sampler": third}
     if signed:
         c["runs_with_signed_loss"] = c.get("runs_with_signed_loss", 0) + 1
     if tiny_grid:
@@ -100,6 +108,11 @@ def one_run(rng, ctx, out):
         flat = [v for b in vals for v in b]
         model = M.Scripted(flat + [unit * 9.0] * 64)
         smp = [RandomUniformSampler(bs, max_deduplication_passes=0), HaltonSampler(bs, max_deduplication_passes=0)]
+        if third is not None:
+            # a history-reading sampler in the line-up: whatever it does with the losses it is lent, the stopping rule sees the recorded ones
+            from vlib import gen as G
+
+            smp.append(G.build_sampler(dict(third, batch_size=bs)))
         with quiet():
             cal = Calibrator(loss_function=RawValueLoss() if signed else MinkowskiLoss(p=1), real_data=np.zeros((1, 1)), model=model, parameters_bounds=[[0.0], [1.0]],
                              parameters_precision=[0.5 if tiny_grid else 0.0001], ensemble_size=1, samplers=smp, convergence_precision=pp, verbose=verbose,
